@@ -476,6 +476,12 @@ Lemma lab_seq_spec le sr lg :
             (nlen (flat_map (flat_map (ser_enc le sr)) (labs lg))).
 Proof. unfold lab_seq. apply lseq_spec. Qed.
 
+Theorem store_closed : S_store_closed.
+Proof.
+  intros le sr lg. rewrite lab_seq_spec. unfold lab_closed, labs, nl, gammas.
+  rewrite !map_map. rewrite flat_map_concat_map, map_map. reflexivity.
+Qed.
+
 Theorem seq_roundtrip : S_seq_roundtrip.
 Proof.
   intros le sr lg padl pado Hok Hv f. unfold f. rewrite lab_seq_spec.
